@@ -623,6 +623,42 @@ class GhostPos(object):
 
     def refine(self, cons, cond, truth, blk=None):
         if isinstance(truth, tuple):
+            # switch (classify(len, idx)): the tests of the helper's paths that return this case's value (for the default: none
+            # of the excluded values); with several such paths, the constraints all of them agree on
+            sc = X.strip(cond)
+            if sc is not None and sc.get("k") == "call" and X.callee_name(sc) and self.prog is not None:
+                g_ = self.prog.fn(X.callee_name(sc))
+                vp = None
+                if g_ is not None and g_.body is not None and not any((X.strip(a) or {}).get("d") in self.ptrvars for a in sc["ch"][1:]):
+                    try:
+                        from . import inout
+                        vp = inout.verdict_paths(g_, sc["ch"][1:])
+                    except Exception:
+                        vp = None
+                if vp:
+                    if truth[0] == "case" and truth[1] is not None:
+                        sel = [t_ for v_, t_ in vp if v_ == truth[1]]
+                    elif truth[0] == "default":
+                        ex_ = set(truth[1] if len(truth) > 1 else ())
+                        sel = [t_ for v_, t_ in vp if v_ not in ex_]
+                    else:
+                        sel = None
+                    if sel is not None:
+                        outs = []
+                        for tests in sel:
+                            c2 = cons
+                            for c_, t_ in tests:
+                                c2 = self.refine(c2, c_, t_) if c2 is not None else None
+                            if c2 is not None:
+                                outs.append(c2)
+                        if not outs:
+                            return None
+                        if len(outs) == 1:
+                            return outs[0]
+                        common = set(outs[0])
+                        for o_ in outs[1:]:
+                            common &= set(o_)
+                        return frozenset(common | set(cons))
             return cons
         c = X.strip(cond)
         if c is None:
@@ -630,6 +666,15 @@ class GhostPos(object):
         k = c.get("k")
         if k == "un" and c.get("op") == "!":
             return self.refine(cons, c["ch"][0], not truth)
+        if any(y.get("k") == "member" and not y.get("arrow") and (X.strip(y["ch"][0]) or {}).get("k") == "ref" and
+               X.strip(y["ch"][0]).get("rk") == "local" and X.strip(y["ch"][0]).get("d") in self._addr_taken_structs() for y in walk(c)):
+            # a test of a field of a struct local that was handed to a helper by address (seek(self, idx, &cur); if (cur.pos != idx)):
+            # what the helper left there is not modelled - whatever is concluded under this test is not definite
+            return self._add(cons, [Lin.sym("unk") - 1])
+        if k == "bin" and c.get("op") in ("<", ">", "<=", ">=", "==", "!=") and any(
+                y.get("k") == "bin" and y.get("op") == "-" and all((X.strip(z) or {}).get("tp") for z in y["ch"]) for y in walk(c)):
+            # a bound counted as a pointer difference (for (slot = arr; (slot - arr) < len; slot++)): not modelled
+            return self._add(cons, [Lin.sym("unk") - 1])
         if k == "ref" and c.get("d") in self.flagdefs:
             v = Lin.sym("v%d" % c["d"])
             r = self._add(cons, [v - 1] if truth else [v, -v])
@@ -927,6 +972,18 @@ class GhostPos(object):
                     continue
                 fn_visit(st, n, blk)
                 st = self.transfer(st, n, blk)
+
+    def _addr_taken_structs(self):
+        r = getattr(self, "_ats", None)
+        if r is None:
+            r = set()
+            for y in walk(self.fn.body):
+                if y.get("k") == "un" and y.get("op") == "&":
+                    t = X.strip(y["ch"][0])
+                    if t is not None and t.get("k") == "ref" and t.get("rk") == "local" and not t.get("tp") and not t.get("tw"):
+                        r.add(t["d"])
+            self._ats = r
+        return r
 
     # ------------------------------------------------------------------ queries
     @staticmethod
